@@ -79,6 +79,10 @@ def gen_case(rng, tier):
                    "plain_mode": rng.choice(mc.ORDER_MODES), "warn_filter": rng.choice(mc.WARN_FILTERS)},
         "ops": [],
     }
+    if max_n <= 12 and rng.random() < 0.1:
+        case_["inputs"]["concurrent"] = [list(dgmgen.gen_pair(rng, rng.choice((4, 8)), allow_inf=False))
+                                         for _ in range(rng.randint(1, 2))]
+        case_["config"]["p_switch"] = rng.choice((2, 4, 8))
     if u8:
         case_["inputs"]["rep1"] = case_["inputs"]["rep2"] = "u8"
     elif A and B and rng.random() < 0.12:
@@ -247,13 +251,50 @@ def run_case(case, sched):
     if not abs(dw - dw_plain) <= 1e-12 * max(abs(dw), scale):
         raise Violation("same-distance-with-and-without-matching", "wasserstein.matching",
                         "lt" if dw < dw_plain else "gt", "%r with matching, %r without" % (dw, dw_plain))
+    # ---- concurrent callers: both distances, with matchings, while other threads do the same on other pairs
+    cstats = {}
+    conc = inp.get("concurrent") or []
+    if conc and cfg.get("set_order", "sim") == "sim":
+        import warnings
+        from sim import callers
+        bott_, wass_ = mc.sut()
+        jobs = [("bottleneck", bott_, A, B, S, T, scale), ("wasserstein", wass_, A, B, S, T, scale)]
+        for pq in conc:
+            if not (isinstance(pq, list) and len(pq) == 2):
+                raise InvalidCase("concurrent")
+            for d_ in pq:
+                dgmgen.check_diagram_json(d_)
+                if any(not math.isfinite(p[1]) for p in d_):
+                    raise InvalidCase("finite")
+            SP, TQ = placeholder(pq[0]), placeholder(pq[1])
+            psc = max([abs(x) for p_ in list(SP) + list(TQ) for x in p_] + [1e-300])
+            for nm_, f_ in (("bottleneck", bott_), ("wasserstein", wass_)):
+                jobs.append((nm_, f_, dgmgen.materialize(pq[0]), dgmgen.materialize(pq[1]), SP, TQ, psc))
+        if len(jobs) > 6:
+            raise InvalidCase("too many concurrent callers")
+        order = list(range(len(jobs)))
+        with simset.order_scope(sched, (cfg.get("modes") or ["uniform"])[0]):
+            with warnings.catch_warnings(record=True):
+                warnings.simplefilter("always")
+                outs = callers.run_concurrent(sched, [(lambda j=j: j[1](j[2], j[3], matching=True)) for j in jobs],
+                                              int(cfg.get("p_switch", 4)), cstats)
+        for ci, ((st_, v_), j) in enumerate(zip(outs, jobs)):
+            site_ = j[0] + ".matching(concurrent)"
+            if st_ != "ok":
+                raise Violation("no-exception", site_, type(v_).__name__, "caller #%d of %d concurrent callers: %s raised %s: %s"
+                                % (ci, len(jobs), j[0], type(v_).__name__, str(v_)[:200]))
+            d_c, rows_c = float(v_[0]), np.asarray(v_[1], dtype=float)
+            validate(j[0], d_c, rows_c, j[4], j[5], "caller #%d of %d concurrent callers" % (ci, len(jobs)), j[6])
+        evals += len(jobs)
+        del order
     n_real = (len(inp["dgm1"]) > 0) + (len(inp["dgm2"]) > 0)
     return {
         "evals": evals,
         "key": hashlib.sha1(json.dumps([inp["dgm1"], inp["dgm2"]]).encode()).hexdigest()[:16],
         "nontrivial": n_real == 2 and len(inp["dgm1"]) + len(inp["dgm2"]) >= 3 and len(results) >= 2,
         "probes": {
-            "pair_views_of_one_buffer": shared_used,
+            "pair_views_of_one_buffer": shared_used, "concurrent_batches": cstats.get("concurrent_batches", 0),
+            "thread_switches": cstats.get("thread_switches", 0),
             "orders_gave_different_valid_matchings": int(len(distinct_matchings) > 1),
             "matching_mixes_cross_and_diagonal": int(any(
                 any(r[0] >= 0 and r[1] >= 0 for r in rows) and any(r[0] < 0 or r[1] < 0 for r in rows)
